@@ -306,7 +306,7 @@ class Sha:
 
 HASH_ASSUMPTIONS = [
     "ServerPlayback._hash: hashlib.sha256(repr(key).encode()).digest() is an injective function of the key list (sha256 collision-freedom; repr of a list of str/int/bytes/tuples is injective); str(bytes) is injective and never equals 'None'",
-    "ServerPlayback._hash: urllib.parse.urlparse / parse_qsl, Request.url, Request.pretty_host, Request.multipart_form / urlencoded_form are trusted parsers: path, query pairs, host and form fields are whatever they return (exercised for real in T2)",
+    "ServerPlayback._hash: urllib.parse.urlsplit / parse_qsl, Request.url, Request.pretty_host, Request.multipart_form / urlencoded_form are trusted parsers: path, query pairs, host and form fields are whatever they return (exercised for real in T2)",
 ]
 
 
@@ -363,7 +363,9 @@ def install_parsers(vc, views):
     vc.summary("mitmproxy.http:Request.pretty_host", lambda v, r: v.lift(of_req(r)["host"]))
     vc.summary("mitmproxy.http:Request._get_multipart_form", lambda v, r: v.lift([x for x in of_req(r)["fields"]] if of_req(r)["form"] == "multipart" else []))
     vc.summary("mitmproxy.http:Request._get_urlencoded_form", lambda v, r: v.lift(tuple(of_req(r)["fields"]) if of_req(r)["form"] == "urlencoded" else ()))
-    vc.summary("urllib.parse:urlparse", lambda v, u, *a, **k: v.lift(("", "", of("url", u)["path"], "", of("url", u)["query"], "")))
+    # the path component is whatever urlsplit returns - including the ';parameters' of its last segment, which belong to the
+    # path (urlparse would split them off: a key built from urlparse's path ignores them, defect repaired in 6e0402ad8)
+    vc.summary("urllib.parse:urlsplit", lambda v, u, *a, **k: v.lift(("", "", of("url", u)["path"], of("url", u)["query"], "")))
     vc.summary("urllib.parse:parse_qsl", lambda v, q, *a, **k: v.lift(list(of("query", q)["qsl"])))
     if vc.mode == "sym":
         vc.summary("builtins:repr", lambda v, x: v.new("props.C52:KeyBox", items=x))
@@ -486,6 +488,8 @@ def bounded(tier, seed):
         dict(base, path="/a?x=2"),
         dict(base, path="/a?x=1&skip=9"),
         dict(base, path="/b?x=1"),
+        dict(base, path="/a;v=1?x=1"),
+        dict(base, path="/a;v=2?x=1"),
         dict(base, host="h2"),
         dict(base, port=81),
         dict(base, method="POST", content=b"k=v&skip=1", form=True),
@@ -512,7 +516,7 @@ def bounded(tier, seed):
                     server_replay_ignore_payload_params=[], server_replay_use_headers=[], server_replay_reuse=False, server_replay_extra="forward",
                     server_replay_kill_extra=False, server_replay_refresh=False)
     nrec, nreq = (3, 3)
-    b.rule = ("recorded sets (<= 3 recordings over 11 request variants with colliding / near-colliding keys, each with or without response) x request sequences (<= 3) x "
+    b.rule = ("recorded sets (<= 3 recordings over 13 request variants with colliding / near-colliding keys, each with or without response) x request sequences (<= 3) x "
               "12 option settings, with an option change (re-index) after the first request; judged by a reference replay (first unserved recording with a response whose "
               "statement key equals the request's, in recording order; forward/kill/status otherwise; count of remaining recordings); distinct = history; "
               "non-trivial = at least one request is answered from a recording")
